@@ -1105,6 +1105,43 @@ theorem C03_negotiator_options (cs : Option ConnState) (adv : List String) (l p 
         · rintro ⟨h1, _⟩; exact h1
   exact ⟨key, key, rfl⟩
 
+/-- **… through to the wire** (probed: real SCRAM-SHA-1 / -PLUS / SHA-256-PLUS clients of the
+dependency in four preference lists × four advertised lists × the four connection kinds, 64
+sessions): the mechanism named in `<auth/>` and the channel-binding flag of its client-first
+message are what `select`, `clientOpts` and the dependency's flag rule give. -/
+theorem C03_gen_scram_gs2 :
+    (Generated.C03.saslScramGs2.map fun t =>
+      t.length == 64 && t.all fun r => gs2Row r.1 r.2.1 r.2.2.1 == r.2.2.2) = some true := by
+  decide
+
+/-- **A `-PLUS` mechanism that is used binds the channel whenever the connection has a TLS
+state**: if the initiating side selects a mechanism whose name ends in `-PLUS` (so both sides
+offered it — `C03_client_mech_used`) on a connection that reports a TLS state with a version,
+its negotiator announces channel binding — never `n` or `y`, which a receiver would accept
+without binding. -/
+theorem C03_channel_binding (cs : ConnState) (hv : cs.version ≠ 0) (cm : List (String × Mech))
+    (adv : List String) (name : String) (m : Mech) (l p i : String)
+    (hsel : select cm adv = some (name, m)) (hplus : isPlus name = true) :
+    gs2Flag (clientOpts (some cs) adv l p i) name = .pUnique ∨
+    gs2Flag (clientOpts (some cs) adv l p i) name = .pExporter := by
+  have hmem : adv.contains name = true := by
+    have := List.find?_some hsel
+    simpa using this
+  simp only [gs2Flag, clientOpts, tlsOpt, hv, if_false, hplus, hmem, Bool.not_true, if_true]
+  by_cases h13 : 772 ≤ cs.version <;> simp [h13]
+
+/-- … and without a TLS state (none reported, or the zero state) nothing is bound -/
+theorem C03_channel_binding_needs_tls (cs : Option ConnState) (h : tlsOpt cs = none)
+    (adv : List String) (name l p i : String) :
+    gs2Flag (clientOpts cs adv l p i) name = .n := by
+  simp [gs2Flag, clientOpts, h]
+
+example : select [("SCRAM-SHA-1-PLUS", fun _ => ({ kind := .more } : StepRes))] ["SCRAM-SHA-1-PLUS"]
+    = some ("SCRAM-SHA-1-PLUS", fun _ => { kind := .more }) ∧ isPlus "SCRAM-SHA-1-PLUS" = true := by
+  constructor
+  · rfl
+  · decide
+
 example : (clientOpts (connOfKind 2) ["SCRAM-SHA-1-PLUS"] "u" "p" "").tls = some ⟨771, [7, 8, 9]⟩ := by decide
 example : (clientOpts (connOfKind 1) ["SCRAM-SHA-1-PLUS"] "u" "p" "").tls = none := by decide
 
